@@ -37,6 +37,7 @@ type Engine struct {
 	readers       []ReadersClause
 	writers       []WritersClause
 	callers       []CallersClause
+	stateless     []StatelessClause
 	nonFresh      map[*ssa.Function]map[string]bool // locations a function may change in pre-existing objects
 	internal      map[string][]string // function -> packages that may call it
 	fpCache       map[string]map[string]bool
